@@ -350,6 +350,15 @@ func lineFeatures(src []byte, t *Tok) string {
 	if rq >= 0 && strings.Contains(right[rq:], "]") && lq >= 0 && strings.Contains(left[:lq], "[") {
 		feats = append(feats, "between-bracketed-strings-on-line")
 	}
+	// the same identifier again exactly one character away (x,x=1 / x=x / x.x): the cursor tolerance windows of the two
+	// tokens overlap
+	name := string(src[t.Off:t.End])
+	isWord := func(b byte) bool { return b == '_' || (b >= '0' && b <= '9') || (b >= 'a' && b <= 'z') || (b >= 'A' && b <= 'Z') }
+	if len(right) > len(name) && !isWord(right[0]) && strings.HasPrefix(right[1:], name) && (len(right) == len(name)+1 || !isWord(right[len(name)+1])) {
+		feats = append(feats, "same-identifier-one-character-away")
+	} else if n := len(left); n > len(name) && !isWord(left[n-1]) && strings.HasSuffix(left[:n-1], name) && (n == len(name)+1 || !isWord(left[n-len(name)-2])) {
+		feats = append(feats, "same-identifier-one-character-away")
+	}
 	if len(feats) == 0 {
 		return "-"
 	}
